@@ -3,6 +3,7 @@ import Tetro.Model.Lcd
 import Tetro.Model.Whole
 import Tetro.Proofs.Whole
 import Tetro.Proofs.WholeSafe
+import Tetro.Proofs.WholeTraces
 
 /-!
 C15 inside the whole-machine model: the two models of `ppu.EndMachineCycle` keep the same clock.
@@ -225,6 +226,44 @@ theorem c15_whole_ppuStep_ok (b : Board) (h : Tetro.WholeSafe.BoardOk b) (hl : b
   obtain ⟨s, hs⟩ := h.lcd
   exact c15_whole_ppuStep b (flag_agree b.m hl) (ticks_lt_of_rel s _ hs)
     (Tetro.WholeSafe.whole_ppu_step_total b h).alive
+
+/-! ### `lcdcLow < 128` along every run -/
+
+private theorem low_step (p : Lcd.Ppu) (op : Lcd.Op) (r : Lcd.TickRes) (h : p.lcdcLow < 128)
+    (hs : Lcd.step p op = some r) : r.p.lcdcLow < 128 := by
+  cases op with
+  | tick =>
+    have hs' : Lcd.tick p = some r := hs
+    unfold Lcd.tick at hs'
+    by_cases he : p.enabled = false
+    · rw [if_pos he] at hs'; cases hs'; exact h
+    · rw [if_neg he] at hs'
+      by_cases hp : Lcd.tickPanics p
+      · rw [if_pos hp] at hs'; cases hs'
+      · rw [if_neg hp] at hs'; cases hs'; exact h
+  | wLCDC v =>
+    cases hs
+    show v % 128 < 128
+    exact Nat.mod_lt _ (by decide)
+  | wSTAT v => cases hs; exact h
+  | wLYC v => cases hs; exact h
+  | wLY v => cases hs; exact h
+
+/-- the seven low LCDC bits stay a 7-bit value along every schedule of LCD operations -/
+theorem low_run (ops : List Lcd.Op) (p q : Lcd.Ppu) (h : p.lcdcLow < 128) (hr : Lcd.run p ops = some q) :
+    q.lcdcLow < 128 := by
+  induction ops generalizing p with
+  | nil => cases hr; exact h
+  | cons op ops ih =>
+    unfold Lcd.run at hr
+    cases hs : Lcd.step p op with
+    | none => rw [hs] at hr; cases hr
+    | some r => rw [hs] at hr; exact ih r.p (low_step p op r h hs) hr
+
+/-- ... hence in every state of every run of the whole machine (the LCD goes through `lcdTrace`) -/
+theorem whole_low (n : Nat) (w : Whole) (h : (Whole.run n w).stopped = false) (h0 : w.b.m.ppu.lcdcLow < 128) :
+    (Whole.run n w).b.m.ppu.lcdcLow < 128 :=
+  low_run _ _ _ h0 (Tetro.WholeTraces.whole_lcd_run n w h)
 
 /-! ### non-vacuity -/
 
